@@ -223,10 +223,34 @@ bool Interp::exec_coll(Interp &I, const Stmt &s)
         });
         return true;
     }
-    if (s.op == "crecord")
+    if (s.op == "crecord" && !s.kwi("sparse", 0))
     {
         PortVal v = I.get(a.at(0));
         with_shape(v.shape, [&]<typename S>() { wire<stdlib::dense_record_impl>(w, Port<S>{w, v.ref}, Str{s.kws("key", "out")}); });
+        return true;
+    }
+    if (s.op == "srecord")
+    {
+        // the persistent "memory" backend recorder: (absolute time, delta) entries under :memory:<rid>.<key>, appended
+        PortVal v = I.get(a.at(0));
+        with_shape(v.shape, [&]<typename S>() {
+            wire<stdlib::sparse_record_impl>(w, Port<S>{w, v.ref}, Str{s.kws("key", "out")}, Str{s.kws("rid", "verif.rec")});
+        });
+        return true;
+    }
+    if (s.op == "sreplay")
+    {
+        const std::string shape = s.kws("shape", "tsd");
+        with_shape(shape, [&]<typename S>() {
+            auto p = wire<stdlib::replay_impl, S>(w, Str{s.kws("key", "in")}, Str{s.kws("rid", "verif.rec")});
+            I.env[s.dst] = PortVal{p.erased(), shape == "ts" ? PT::Int : PT::Other, shape};
+        });
+        return true;
+    }
+    if (s.op == "crecord" && s.kwi("sparse", 0))
+    {
+        PortVal v = I.get(a.at(0));
+        with_shape(v.shape, [&]<typename S>() { wire<stdlib::dense_record_impl>(w, Port<S>{w, v.ref}, Str{s.kws("key", "out")}, Bool{true}); });
         return true;
     }
     if (s.op == "creplay")
